@@ -1654,6 +1654,9 @@ func PerspectiveOriginHandler(value string) bool {
 	splitVals := strings.Split(value, " ")
 	xValues := []string{"left", "center", "right"}
 	yValues := []string{"top", "center", "bottom"}
+	if len(splitVals) > 2 {
+		return false
+	}
 	if len(splitVals) > 1 {
 		if !in([]string{splitVals[0]}, xValues) && !LengthHandler(splitVals[0]) {
 			return false
@@ -1879,6 +1882,9 @@ func TransformOriginHandler(value string) bool {
 	splitVals := strings.Split(value, " ")
 	xValues := []string{"left", "center", "right"}
 	yValues := []string{"top", "center", "bottom"}
+	if len(splitVals) > 3 {
+		return false
+	}
 	if len(splitVals) > 2 {
 		if !in([]string{splitVals[0]}, xValues) && !LengthHandler(splitVals[0]) {
 			return false
